@@ -39,6 +39,29 @@ def orient_clause(cl, rng, n, replay):
                 and close(r.ns.amplitude, ns, 1e-10, 1e-10) and close(r.ew.amplitude, ew, 1e-10, 1e-10)):
             cl.fail("hvsrpy.seismic_recording_3c.SeismicRecording3C.orient_sensor_to", "composition / inverse of re-orientations", signature="orient:compose")
             return
+        # the rotation acts on the horizontals the recording holds *now*: after an in-place change (scaling, detrending, trimming, tapering) between two re-orientations the
+        # second one rotates the changed samples
+        if N >= 8:
+            h = rp.mk_record(ns, ew, vt, 0.01, degrees_from_north=d0)
+            h.orient_sensor_to(t1)
+            step = j % 4
+            if step == 0:
+                h.ns.amplitude *= 3.0
+                h.ew.amplitude[:] = h.ew.amplitude[::-1].copy()
+            elif step == 1:
+                h.detrend("linear")
+            elif step == 2:
+                h.trim(0.01, (N - 2) * 0.01)
+            else:
+                h.window("tukey", 0.5)
+            n1, e1, v1 = h.ns.amplitude.copy(), h.ew.amplitude.copy(), h.vt.amplitude.copy()
+            h.orient_sensor_to(t2)
+            a2 = np.radians(t2 - t1)
+            if not (len(h.ns.amplitude) == len(n1) == len(h.ew.amplitude) and close(h.ns.amplitude, e1 * np.sin(a2) + n1 * np.cos(a2), 1e-10, 1e-10)
+                    and close(h.ew.amplitude, e1 * np.cos(a2) - n1 * np.sin(a2), 1e-10, 1e-10) and np.array_equal(h.vt.amplitude, v1)):
+                cl.fail("hvsrpy.seismic_recording_3c.SeismicRecording3C.orient_sensor_to", "a re-orientation after an in-place change of the recording (scaling / detrend / trim / taper) "
+                        "is not the rotation of the horizontals the recording holds at that moment", signature="orient:after-inplace", d0=d0, first=t1, second=t2, step=step)
+                return
         # polarisation: motion along true azimuth alpha recorded at deployment angle theta
         alpha, theta = float(rng.uniform(0, 360)), float(rng.choice([0., 20., 135., 300., 410.]))
         m = rng.normal(0, 1, N)
